@@ -86,12 +86,22 @@ pub fn gen_browse_world(prop: &str, flavor: Flavor, seed: u64, index: u64, tier:
     s.net.self_loop = rng.below(4) != 0;
     // DUT: one or two v4/dual interfaces
     let n_if = 1 + rng.below(2) as usize;
+    // (C03: in one world in seven with two interfaces both are on the same LAN - same segment, same IPv4 subnet, e.g. wired
+    // and wireless - so that every packet, and with it every address record, is received on both. Decided from the index, not
+    // from the PRNG, so that all other worlds stay as they were.)
+    let same_lan = flavor == Flavor::C03 && n_if == 2 && index % 7 == 3;
     let mut ifs = vec![];
     for i in 0..n_if {
-        let v4 = format!("192.168.{}.10", 1 + i);
-        let v6 = format!("fe80::{:x}:10", 1 + i);
+        let mut v4 = format!("192.168.{}.10", 1 + i);
+        let mut v6 = format!("fe80::{:x}:10", 1 + i);
         let dual = rng.below(3) == 0;
-        ifs.push(simple_if(&format!("eth{i}"), 2 + i as u32, Some((&v4, 24)), if dual { Some((&v6, 64)) } else { None }, i));
+        let mut seg = i;
+        if same_lan && i == 1 {
+            v4 = "192.168.1.11".to_string();
+            v6 = "fe80::1:11".to_string();
+            seg = 0;
+        }
+        ifs.push(simple_if(&format!("eth{i}"), 2 + i as u32, Some((&v4, 24)), if dual { Some((&v6, 64)) } else { None }, seg));
     }
     s.duts.push(DutCfg { ifs: ifs.clone(), v4: true, v6: true, epoch_off: [0i64, 0, 86_400_000, -3_600_000][rng.below(4) as usize], yields: false });
     s.op(0, Op::SetIpCheck { d: 0, secs: HUGE_IP_CHECK_SECS });
@@ -114,6 +124,7 @@ pub fn gen_browse_world(prop: &str, flavor: Flavor, seed: u64, index: u64, tier:
     let mut instances = vec![];
     for p in 0..n_peers {
         let seg = rng.below(n_if as u64) as usize;
+        let seg = if same_lan { 0 } else { seg };
         let dual_if = ifs[seg].addrs.len() > 1;
         let host_octet = 50 + p as u8;
         let mut peer = PeerCfg { seg, v4: Some(format!("192.168.{}.{}", 1 + seg, host_octet)), v6: if dual_if { Some(format!("fe80::{:x}:{:x}", 1 + seg, host_octet)) } else { None }, responder: None };
@@ -231,7 +242,19 @@ pub fn gen_browse_world(prop: &str, flavor: Flavor, seed: u64, index: u64, tier:
                             _ => cur.addrs.clone(),
                         };
                         let mut gb = goodbye(&recs);
-                        if what >= 2 && rng.below(3) == 0 {
+                        // (C03 only, decided from index and time: the TXT record alone is withdrawn, and the same packet brings a
+                        // further address of the host, so that the daemon reports the instance again while its newest TXT is dying)
+                        let txt_gb = flavor == Flavor::C03 && what >= 2 && (index + t_ev) % 3 == 0;
+                        if txt_gb {
+                            gb = goodbye(&[cur.txt.clone()]);
+                            let extra = Rec::a(&cur.host, ip4(&format!("192.168.{}.{}", 1 + seg, 200 + p as u8)), cur.srv.ttl, false);
+                            gb.answers.push(extra.clone());
+                            if !cur.addrs.contains(&extra) {
+                                cur.addrs.push(extra.clone());
+                                all_recs.push(extra);
+                            }
+                            all_recs.retain(|r| r != &cur.txt);
+                        } else if what >= 2 && rng.below(3) == 0 {
                             // the same packet carries a changed TXT of the instance: the daemon looks at the instance again in
                             // the very step (and millisecond) in which it stored the goodbye
                             let new_txt = Rec::txt(&cur.inst, wire::txt_encode(&[("k".into(), Some(format!("g{}", t_ev).into_bytes()))]), cur.txt.ttl, true);
@@ -397,6 +420,10 @@ impl Property for C03 {
                     }
                     let last = m.recs[i].arrivals.iter().filter(|x| x.step <= e.step).filter(on).max_by_key(|x| (x.step, x.rx));
                     match last {
+                        // (a goodbye read in the event's own step counts only when it came in the only datagram of that step:
+                        // otherwise the event may have been built after an earlier datagram and before this one - the rule on a
+                        // LAN that is reached through two interfaces, where every packet is read twice)
+                        Some(x) if x.step == e.step && tr.rx.iter().filter(|r| r.d == d && r.step == Some(e.step)).count() > 1 => None,
                         Some(x) if x.ttl == 0 && x.certain && !x.corrupted => Some(x.t),
                         _ => None,
                     }
@@ -404,6 +431,13 @@ impl Property for C03 {
                 let srvs: Vec<usize> = m.find(&fullname, wire::T_SRV).into_iter().filter(|&i| matches!(srv_target(&m.recs[i].rec), Some((h, p)) if h.eq_ci(&host) && p == r.port)).collect();
                 if !srvs.is_empty() && srvs.iter().all(|&i| withdrawn(i, None).is_some()) {
                     j.fail("C03-R6", format!("ServiceResolved({}) at t={} shows host={} port={} although the SRV record that says so was withdrawn by a goodbye read at t={}", r.fullname, t, r.host, r.port, withdrawn(srvs[0], None).unwrap()));
+                }
+                if !r.txt.is_empty() {
+                    let shown: Vec<usize> = m.find(&fullname, wire::T_TXT).into_iter().filter(|&i| matches!(&m.recs[i].rec.rdata, RData::Txt(b) if wire::txt_decode_unique(b) == r.txt) && m.recs[i].arrivals.iter().any(|x| x.step <= e.step)).collect();
+                    if !shown.is_empty() && shown.iter().all(|&i| withdrawn(i, None).is_some()) {
+                        j.probe("txt-withdrawn-judged");
+                        j.fail("C03-R6", format!("ServiceResolved({}) at t={} shows TXT properties {:?} although the TXT record that carries them was withdrawn by a goodbye read at t={}", r.fullname, t, r.txt, withdrawn(shown[0], None).unwrap()));
+                    }
                 }
                 for a in &r.addrs {
                     let ty = if a.ip.is_ipv4() { wire::T_A } else { wire::T_AAAA };
